@@ -36,6 +36,8 @@ Tol(chk, dt) ==
     [] chk = "grad_log"   -> SqrtTol(dt)   \* autograd left-perturbation Jacobian of Log  vs  d/dh Log(Exp(h e_i) X)
     [] chk = "grad_logexp" -> SqrtTol(dt)  \* autograd d Log(Exp(x) @ Y)/dx  vs  finite differences
     [] chk = "grad_zero_slot" -> 0         \* the slot of a group gradient beyond the manifold dimension is exactly zero
+    [] chk = "corr_gradient" -> 4096       \* C09: J'^T R' vs sum_i rho'(|R_i|^2) J_i^T R_i for the built-in kernels
+    [] chk = "corr_ft_equal" -> 4096       \* C09: Triggs = FastTriggs where rho'' <= 0 or R_i = 0
     [] chk = "adj_lin"    -> 256       \* Adj / AdjT as matrices: generic floats vs conjugation of generators
     [] chk = "adjT_lin"   -> 256
     [] OTHER              -> 0
